@@ -65,30 +65,40 @@ Proof. exact concat_copy_lem. Qed.
 Print Assumptions concat_copy.
 
 (* fan-in (mergeValues, stream branch): whatever order-preserving interleaving
-   MergeStreamReaders produces of two or more map streams with pairwise disjoint keys, it
-   concatenates to mergeMap of the sources' concatenations *)
+   MergeStreamReaders produces of two or more map streams (maps nested to any depth) with
+   pairwise disjoint top-level keys, it concatenates to mergeMap of the sources'
+   concatenations.  ([forallb mcons ms]: no source value holds a string and a map under one
+   key — true of every Go map; the values of the model are entry lists, which could.) *)
 Theorem concat_merge :
   forall (ls : list (stream val)) (ms : list amap) (t : stream val),
     Forall2 (fun s m => vsconcat s = Ok (VM m)) ls ms ->
     2 <= List.length ls ->
     Interleaving ls t ->
     disjoint_keys [] ms = true ->
+    forallb mcons ms = true ->
     vsconcat t = v_merge (map VM ms).
 Proof. exact concat_merge_lem. Qed.
 Print Assumptions concat_merge.
 
+(* the first source carries a nested map {0: {5: "a"}} , {0: {6: "b"}} (in Go e.g. a
+   map[string]string under the output key 0, emitted key by key), the second a string *)
 Example concat_merge_nonvacuous :
-  let s1 := [Val (VM [(0%N, "a"%string)]); Val (VM [(0%N, "b"%string)])] in
-  let s2 := [Val (VM [(1%N, "c"%string)])] in
-  let t := [Val (VM [(0%N, "a"%string)]); Val (VM [(1%N, "c"%string)]); Val (VM [(0%N, "b"%string)])] in
-  Forall2 (fun s m => vsconcat s = Ok (VM m)) [s1; s2] [[(0%N, "ab"%string)]; [(1%N, "c"%string)]]
+  let s1 := [Val (VM [((0%N, KMap), ""%string); ((0%N, KSub 5 KStr), "a"%string)]);
+             Val (VM [((0%N, KMap), ""%string); ((0%N, KSub 6 KStr), "b"%string)])] in
+  let s2 := [Val (VM [(kstr 1, "c"%string)])] in
+  let t := [Val (VM [((0%N, KMap), ""%string); ((0%N, KSub 5 KStr), "a"%string)]);
+            Val (VM [(kstr 1, "c"%string)]);
+            Val (VM [((0%N, KMap), ""%string); ((0%N, KSub 6 KStr), "b"%string)])] in
+  let m1 := [((0%N, KMap), ""%string); ((0%N, KSub 5 KStr), "a"%string); ((0%N, KSub 6 KStr), "b"%string)] in
+  Forall2 (fun s m => vsconcat s = Ok (VM m)) [s1; s2] [m1; [(kstr 1, "c"%string)]]
   /\ Interleaving [s1; s2] t
-  /\ disjoint_keys [] [[(0%N, "ab"%string)]; [(1%N, "c"%string)]] = true
-  /\ vsconcat t = Ok (VM [(0%N, "ab"%string); (1%N, "c"%string)]).
+  /\ disjoint_keys [] [m1; [(kstr 1, "c"%string)]] = true
+  /\ forallb mcons [m1; [(kstr 1, "c"%string)]] = true
+  /\ vsconcat t = Ok (VM (m1 ++ [(kstr 1, "c"%string)])).
 Proof.
-  cbv zeta. split; [repeat constructor|]. split; [|split; reflexivity].
-  apply (il_cons [] _ _ [[Val (VM [(1%N, "c"%string)])]]).
-  apply (il_cons [[Val (VM [(0%N, "b"%string)])]] _ [] []).
+  cbv zeta. split; [repeat constructor|]. split; [|repeat split; reflexivity].
+  apply (il_cons [] _ _ [[Val (VM [(kstr 1, "c"%string)])]]).
+  apply (il_cons [[Val (VM [((0%N, KMap), ""%string); ((0%N, KSub 6 KStr), "b"%string)])]] _ [] []).
   apply (il_cons [] _ [] [[]]).
   constructor. repeat constructor.
 Qed.
@@ -101,28 +111,55 @@ Theorem merge_propagates_failure :
 Proof. exact merge_failed. Qed.
 Print Assumptions merge_propagates_failure.
 
-(* WithOutputKey: stream form (streamReader.withKey) against value form *)
+(* WithOutputKey: stream form (streamReader.withKey) against value form, for strings and for
+   maps (the value under the key is then a map again), on every sound stream: one that
+   carries an error item or whose chunks concatenate *)
 Theorem concat_withKey :
-  forall (k : N) (s : stream val), s <> [] ->
-    agree (vsconcat (s_withKey k s)) (res_bind (vsconcat s) (v_withKey k)).
+  forall (k : N) (s : stream val), s <> [] -> sound s ->
+    agree (vsconcat (s_withKey k s)) (res_bind (vsconcat s) (v_withKey k))
+    /\ sound (s_withKey k s).
 Proof. exact concat_withKey_lem. Qed.
 Print Assumptions concat_withKey.
+
+Example concat_withKey_nonvacuous :
+  let s := [Val (VM [(kstr 5, "a"%string)]); Val (VM [(kstr 6, "b"%string)])] in
+  sound s
+  /\ vsconcat (s_withKey 0 s)
+     = Ok (VM [((0%N, KMap), ""%string); ((0%N, KSub 5 KStr), "a"%string); ((0%N, KSub 6 KStr), "b"%string)]).
+Proof. cbv zeta. split; [right; eexists; reflexivity|reflexivity]. Qed.
 
 (* WithInputKey: stream form (defaultStreamMapFilter) against value form, when the
    concatenated input carries the key (hypothesis: finding F-C04b is the other case) *)
 Theorem concat_keyFilter :
-  forall (k : N) (s : stream val), s <> [] ->
-    (forall m, vsconcat s = Ok (VM m) -> mhas k m = true) ->
+  forall (k : N) (s : stream val), s <> [] -> sound s ->
+    (forall m, vsconcat s = Ok (VM m) -> m_get k m <> None) ->
     agree (vsconcat (s_keyFilter k s)) (res_bind (vsconcat s) (v_getKey k))
-    /\ s_keyFilter k s <> [].
+    /\ s_keyFilter k s <> [] /\ sound (s_keyFilter k s).
 Proof. exact concat_keyFilter_lem. Qed.
 Print Assumptions concat_keyFilter.
 
+(* the key 0 holds a nested map that arrives in two chunks, with a chunk of another key in between *)
 Example concat_keyFilter_nonvacuous :
-  let s := [Val (VM [(0%N, "a"%string)]); Val (VM [(1%N, "x"%string)]); Val (VM [(0%N, "b"%string)])] in
-  (forall m, vsconcat s = Ok (VM m) -> mhas 0%N m = true)
-  /\ vsconcat (s_keyFilter 0%N s) = Ok (VS "ab"%string).
-Proof. cbv zeta. split; [|reflexivity]. intros m H. vm_compute in H. inversion H. reflexivity. Qed.
+  let s := [Val (VM [((0%N, KMap), ""%string); ((0%N, KSub 5 KStr), "a"%string)]);
+            Val (VM [(kstr 1, "x"%string)]);
+            Val (VM [((0%N, KMap), ""%string); ((0%N, KSub 6 KStr), "b"%string)])] in
+  sound s
+  /\ (forall m, vsconcat s = Ok (VM m) -> m_get 0%N m <> None)
+  /\ vsconcat (s_keyFilter 0%N s) = Ok (VM [(kstr 5, "a"%string); (kstr 6, "b"%string)]).
+Proof.
+  cbv zeta. split; [right; eexists; reflexivity|]. split; [|reflexivity].
+  intros m H. vm_compute in H. inversion H. discriminate.
+Qed.
+
+(* why sound streams: chunks holding a string and a map under the same key do not
+   concatenate, the input-key filter never looks at that key *)
+Theorem unsound_stream_refuted :
+  vsconcat clash_stream = Err e_type
+  /\ ~ sound clash_stream
+  /\ vsconcat (s_keyFilter 0 clash_stream) = Ok (VS "ab"%string)
+  /\ ~ agree (vsconcat (s_keyFilter 0 clash_stream)) (res_bind (vsconcat clash_stream) (v_getKey 0)).
+Proof. exact unsound_stream_witness. Qed.
+Print Assumptions unsound_stream_refuted.
 
 (* Workflow field mappings (ToField / MapFields / FromField between strings and flat maps):
    the stream form (chunk-wise; a chunk that lacks a key maps nothing, an empty mapping
@@ -130,19 +167,20 @@ Proof. cbv zeta. split; [|reflexivity]. intros m H. vm_compute in H. inversion H
    the mapping reads is carried by the concatenated input (the other case is F-C04c) and
    no two mappings write the same field (Workflow.Compile rejects that) *)
 Theorem concat_fieldMap :
-  forall (f : fmap) (s : stream val), fmap_wf f = true -> s <> [] ->
+  forall (f : fmap) (s : stream val), fmap_wf f = true -> s <> [] -> sound s ->
     (forall x, vsconcat s = Ok x -> fmap_dom f x = true) ->
-    agree (vsconcat (s_fmap f s)) (res_bind (vsconcat s) (v_fmap f)) /\ s_fmap f s <> [].
+    agree (vsconcat (s_fmap f s)) (res_bind (vsconcat s) (v_fmap f)) /\ s_fmap f s <> []
+    /\ sound (s_fmap f s).
 Proof. exact concat_fieldMap_lem. Qed.
 Print Assumptions concat_fieldMap.
 
 Example concat_fieldMap_nonvacuous :
   let f := FTo [(Some 0%N, 5%N); (Some 1%N, 6%N)] in
-  let s := [Val (VM [(0%N, "a"%string)]); Val (VM [(1%N, "x"%string)]); Val (VM [(0%N, "b"%string)])] in
+  let s := [Val (VM [(kstr 0, "a"%string)]); Val (VM [(kstr 1, "x"%string)]); Val (VM [(kstr 0, "b"%string)])] in
   fmap_wf f = true
   /\ (forall x, vsconcat s = Ok x -> fmap_dom f x = true)
-  /\ vsconcat (s_fmap f s) = Ok (VM [(5%N, "ab"%string); (6%N, "x"%string)])
-  /\ res_bind (vsconcat s) (v_fmap f) = Ok (VM [(5%N, "ab"%string); (6%N, "x"%string)]).
+  /\ vsconcat (s_fmap f s) = Ok (VM [(kstr 5, "ab"%string); (kstr 6, "x"%string)])
+  /\ res_bind (vsconcat s) (v_fmap f) = Ok (VM [(kstr 5, "ab"%string); (kstr 6, "x"%string)]).
 Proof.
   cbv zeta. split; [reflexivity|]. split; [|split; reflexivity].
   intros x H. vm_compute in H. inversion H. reflexivity.
@@ -151,26 +189,26 @@ Qed.
 (* run-time type check on the edges leaving an any-typed node: chunk-wise stream form
    (defaultStreamConverter) against the value form (defaultValueChecker) *)
 Theorem concat_check :
-  forall (want_map : bool) (s : stream val), s <> [] ->
+  forall (want_map : bool) (s : stream val), s <> [] -> sound s ->
     agree (vsconcat (s_check want_map s)) (res_bind (vsconcat s) (v_check want_map))
-    /\ s_check want_map s <> [].
+    /\ s_check want_map s <> [] /\ sound (s_check want_map s).
 Proof. exact concat_check_lem. Qed.
 Print Assumptions concat_check.
 
 (* ------------------------------------------------------------------ graph level *)
 
 (* simulation: for every graph built from consistent nodes ([prog_ok]), every choice of
-   interleaving at every fan-in, every position, every non-empty input stream (any
+   interleaving at every fan-in, every position, every non-empty sound input stream (any
    chunking, error items included) whose concatenation — if it has one — is in the domain:
    the stream-mode run, concatenated, agrees with the value-mode run on the concatenated
-   input (same value, or a failure on both sides), and delivers a non-empty stream *)
+   input (same value, or a failure on both sides), and delivers a non-empty sound stream *)
 Theorem run_sim :
   forall (mrg : list nat -> list (stream val) -> stream val),
     (forall pos ls, Interleaving ls (mrg pos ls)) ->
     forall p, prog_ok p ->
-    forall pos s, s <> [] -> (forall x, vsconcat s = Ok x -> dom_ok p x = true) ->
+    forall pos s, s <> [] -> sound s -> (forall x, vsconcat s = Ok x -> dom_ok p x = true) ->
       agree (vsconcatR (run_stream mrg pos p s)) (res_bind (vsconcat s) (run_value p))
-      /\ (forall o, run_stream mrg pos p s = Ok o -> o <> []).
+      /\ (forall o, run_stream mrg pos p s = Ok o -> o <> [] /\ sound o).
 Proof. exact run_sim_lem. Qed.
 Print Assumptions run_sim.
 
@@ -197,7 +235,7 @@ Theorem interleaving_irrelevant :
     (forall pos ls, Interleaving ls (mrg1 pos ls)) ->
     (forall pos ls, Interleaving ls (mrg2 pos ls)) ->
     forall p, prog_ok p ->
-    forall s, s <> [] -> (forall x, vsconcat s = Ok x -> dom_ok p x = true) ->
+    forall s, s <> [] -> sound s -> (forall x, vsconcat s = Ok x -> dom_ok p x = true) ->
       agree (vsconcatR (g_transform mrg1 p s)) (vsconcatR (g_transform mrg2 p s)).
 Proof. exact interleaving_irrelevant_lem. Qed.
 Print Assumptions interleaving_irrelevant.
@@ -239,7 +277,7 @@ Example agree_nonvacuous :
   /\ vsconcat (map Val [VS "ab"%string; VS "c"%string]) = Ok (VS "abc"%string)
   /\ dom_ok (compile_sprog mixed_prog) (VS "abc"%string) = true
   /\ g_invoke (compile_sprog mixed_prog) (VS "abc"%string)
-     = Ok (VM [(2%N, "n6<n3{aa=n1(abc);ab=n2(abc);}"%string); (3%N, "n3{aa=n1(abc);ab=n2(abc);}>"%string)])
+     = Ok (VM [(kstr 2, "n6<n3{aa=n1(abc);ab=n2(abc);}"%string); (kstr 3, "n3{aa=n1(abc);ab=n2(abc);}>"%string)])
   /\ vsconcatR (g_transform seq_mrg (compile_sprog mixed_prog) (map Val [VS "ab"%string; VS "c"%string]))
      = g_invoke (compile_sprog mixed_prog) (VS "abc"%string).
 Proof. exact mixed_prog_in_domain. Qed.
@@ -256,7 +294,7 @@ Theorem fanin_dupkey_refuted :
   /\ dom_ok (compile_sprog dupkey_prog) (VS "x"%string) = false
   /\ g_invoke (compile_sprog dupkey_prog) (VS "x"%string) = Err e_dupkey
   /\ vsconcatR (g_stream seq_mrg (compile_sprog dupkey_prog) (VS "x"%string))
-     = Ok (VM [(5%N, "n3{aa=n1(x)n2(x);}"%string)])
+     = Ok (VM [(kstr 5, "n3{aa=n1(x)n2(x);}"%string)])
   /\ ~ agree (vsconcatR (g_stream seq_mrg (compile_sprog dupkey_prog) (VS "x"%string)))
              (g_invoke (compile_sprog dupkey_prog) (VS "x"%string)).
 Proof. exact fanin_dupkey_refuted_lem. Qed.
@@ -264,11 +302,11 @@ Print Assumptions fanin_dupkey_refuted.
 
 (* ... and what the stream run delivers there depends on the interleaving *)
 Theorem fanin_dupkey_order_dependent :
-  v_merge [VM [(0%N, "A"%string)]; VM [(0%N, "B"%string)]] = Err e_dupkey
+  v_merge [VM [(kstr 0, "A"%string)]; VM [(kstr 0, "B"%string)]] = Err e_dupkey
   /\ Interleaving [dup_src1; dup_src2] (dup_src1 ++ dup_src2)
   /\ Interleaving [dup_src1; dup_src2] (dup_src2 ++ dup_src1)
-  /\ vsconcat (dup_src1 ++ dup_src2) = Ok (VM [(0%N, "AB"%string)])
-  /\ vsconcat (dup_src2 ++ dup_src1) = Ok (VM [(0%N, "BA"%string)]).
+  /\ vsconcat (dup_src1 ++ dup_src2) = Ok (VM [(kstr 0, "AB"%string)])
+  /\ vsconcat (dup_src2 ++ dup_src1) = Ok (VM [(kstr 0, "BA"%string)]).
 Proof. exact fanin_dupkey_witness. Qed.
 Print Assumptions fanin_dupkey_order_dependent.
 
@@ -277,18 +315,18 @@ Print Assumptions fanin_dupkey_order_dependent.
    the empty stream and succeeds *)
 Theorem inkey_missing_refuted :
   sprog_wf nokey_prog = true
-  /\ dom_ok (compile_sprog nokey_prog) (VM [(0%N, "v"%string)]) = false
-  /\ g_invoke (compile_sprog nokey_prog) (VM [(0%N, "v"%string)]) = Err e_nokey
-  /\ vsconcatR (g_stream seq_mrg (compile_sprog nokey_prog) (VM [(0%N, "v"%string)]))
+  /\ dom_ok (compile_sprog nokey_prog) (VM [(kstr 0, "v"%string)]) = false
+  /\ g_invoke (compile_sprog nokey_prog) (VM [(kstr 0, "v"%string)]) = Err e_nokey
+  /\ vsconcatR (g_stream seq_mrg (compile_sprog nokey_prog) (VM [(kstr 0, "v"%string)]))
      = Ok (VS "n1()"%string)
-  /\ ~ agree (vsconcatR (g_stream seq_mrg (compile_sprog nokey_prog) (VM [(0%N, "v"%string)])))
-             (g_invoke (compile_sprog nokey_prog) (VM [(0%N, "v"%string)])).
+  /\ ~ agree (vsconcatR (g_stream seq_mrg (compile_sprog nokey_prog) (VM [(kstr 0, "v"%string)])))
+             (g_invoke (compile_sprog nokey_prog) (VM [(kstr 0, "v"%string)])).
 Proof. exact inkey_missing_refuted_lem. Qed.
 Print Assumptions inkey_missing_refuted.
 
 (* mechanism of F-C04b at the operation level *)
 Theorem keyFilter_missing_key :
-  forall (k : N) (ms : list amap), ms <> [] -> mhas k (mval ms) = false ->
+  forall (k : N) (ms : list amap), ms <> [] -> mok ms = true -> m_get k (mval ms) = None ->
     s_keyFilter k (sVM ms) = [] /\ res_bind (vsconcat (sVM ms)) (v_getKey k) = Err e_nokey.
 Proof. exact keyFilter_missing. Qed.
 Print Assumptions keyFilter_missing_key.
@@ -307,7 +345,7 @@ Proof. exact fieldmap_missing_refuted_lem. Qed.
 Print Assumptions fieldmap_missing_refuted.
 
 Theorem fieldMap_missing_key :
-  forall (a : N) (ms : list amap), ms <> [] -> mhas a (mval ms) = false ->
+  forall (a : N) (ms : list amap), ms <> [] -> mok ms = true -> mhas (kstr a) (mval ms) = false ->
     res_bind (vsconcat (sVM ms)) (v_fmap (FTake a)) = Err e_nokey
     /\ vsconcat (s_fmap (FTake a) (sVM ms)) = Ok (VS EmptyString).
 Proof. exact fieldMap_missing_lem. Qed.
@@ -351,3 +389,15 @@ Example agree_nonvacuous_multibranch :
   /\ vsconcatR (g_transform seq_mrg (compile_sprog multi_prog) (map Val [VS "a"%string; VS "b"%string]))
      = g_invoke (compile_sprog multi_prog) (VS "ab"%string).
 Proof. exact multi_prog_in_domain. Qed.
+
+(* non-vacuity with nested maps: a Stream-native map producer under an output key (two
+   chunks that each carry a fragment of the nested map: in Go a map[string]string or a
+   map[string]any), an input key that reads the nested map, two levels of nesting *)
+Example agree_nonvacuous_nested :
+  sprog_wf nested_prog = true
+  /\ dom_ok (compile_sprog nested_prog) (VS "ab"%string) = true
+  /\ g_invoke (compile_sprog nested_prog) (VS "ab"%string)
+     = Ok (VS "n5{ac=n3{af=n1<ab;ag=ab>;};ad/;ad.ah=n4{aa/;aa.af=n1<ab;aa.ag=ab>;ab=n2(ab);};}"%string)
+  /\ vsconcatR (g_transform seq_mrg (compile_sprog nested_prog) (map Val [VS "a"%string; VS "b"%string]))
+     = g_invoke (compile_sprog nested_prog) (VS "ab"%string).
+Proof. exact nested_prog_in_domain. Qed.
